@@ -1025,6 +1025,8 @@ class AccessorEval:
             self.module = ci.module
             try:
                 for st in ci.node.body:
+                    if isinstance(st, ast.AnnAssign) and st.value is not None and isinstance(st.target, ast.Name):
+                        st = ast.copy_location(ast.Assign(targets=[st.target], value=st.value), st)  # `name: T = value`
                     if isinstance(st, ast.Assign) and all(isinstance(t, (ast.Name, ast.Tuple)) for t in st.targets):
                         try:
                             self._stmt(st, local)
